@@ -547,11 +547,16 @@ func (d *diffEnv) step(args []string) (resp.Value, bool) {
 		d.cn.Proto = d.sess.Proto
 	}
 	diverged := false
+	stepSig := "" // a recognised defect of this step: its state divergences carry the same signature
 	if ambiguous {
 		r.Count("ambiguous_time_steps", 1)
 	} else if why := model.Match(exp, got); why != "" {
 		diverged = true
 		sig := fmt.Sprintf("%s/%s/reply/%s/%s-vs-%s", d.monitor, tag, prior, exp.Class(), model.Class(got))
+		if s2 := refineReplySig(args, got); s2 != "" {
+			sig = "model/" + s2
+			stepSig = sig
+		}
 		r.Report(sig, fmt.Sprintf("%s (key was %s): %s", cmdString(args), prior, why), d.replay(map[string]any{"command": args, "expected": exp.String(), "got": got.String()}))
 	}
 	if d.cover != nil {
@@ -634,6 +639,9 @@ func (d *diffEnv) step(args []string) (resp.Value, bool) {
 				if s2 := refineStateSig(args, cls, o, kd, d0, d1); s2 != "" {
 					sig = d.monitor + "/" + s2
 				}
+				if stepSig != "" {
+					sig = stepSig
+				}
 				r.Report(sig,
 					fmt.Sprintf("after %s (reply %s): key %q is %s, Redis semantics give %s", cmdString(args), got, k, kd, objString(o, d1)), d.replay(map[string]any{"command": args, "key": k}))
 			}
@@ -684,6 +692,14 @@ func refineStateSig(args []string, cls string, o *model.Obj, kd *keyDump, d0, d1
 		if wholeSecond && late > 0 && late <= 1000+model.Gran {
 			return "EXAT/deadline-late-by-subsecond"
 		}
+	}
+	return ""
+}
+
+// refineReplySig recognises specific defects from the reply alone.
+func refineReplySig(args []string, got resp.Value) string {
+	if strings.EqualFold(args[0], "COPY") && got.IsError() && strings.Contains(string(got.Str), "database copy not supported") {
+		return "COPY+DB/unsupported"
 	}
 	return ""
 }
